@@ -96,7 +96,14 @@ func ConstructMessageFromUnits(
 
 	merkleRoot, merkleTree := merkle.New(shards)
 
-	messageRoot := units[0].MessageRoot
+	// units[0] is nil whenever shard 0 is among the missing ones: take the root from any present unit.
+	var messageRoot MessageRoot
+	for _, unit := range units {
+		if unit != nil {
+			messageRoot = unit.MessageRoot
+			break
+		}
+	}
 	expectedRoot := MessageRoot(merkleRoot)
 	if messageRoot != expectedRoot {
 		// todo(rdr): probably need to write string methods for the MessageRoot type
